@@ -14,6 +14,9 @@
 (* bytes equal".  33-bit clocks are three 15-bit limbs (T3), 32-bit ones use a 2-bit top limb.   *)
 EXTENDS Integers, Sequences, FiniteSets, TLC, Json
 
+CONSTANTS ProbeMax,      \* calcFragmentHeaderQueueSize (16)
+          GopNum         \* httpts.gop_num (reference model only)
+
 VARIABLES vc, ac,     \* codecs of the stream under test: avc|hevc|none, aac|opus|g711a|g711u|none
           hist,       \* what was published so far (per track), parameter sets / ASC in force
           cons,       \* acceptor state per TS consumer (t1, t2 = HTTP-TS, hls = concatenated segments)
@@ -77,7 +80,8 @@ AscFreq(i) == CASE i = 0 -> 96000 [] i = 1 -> 88200 [] i = 2 -> 64000 [] i = 3 -
 (* History of the publication.                                                                   *)
 NoPs == [sps |-> 0, pps |-> 0, vps |-> 0]
 PsTypes == IF vc = "hevc" THEN {"vps", "sps", "pps"} ELSE {"sps", "pps"}
-HistInit == [pubV |-> <<>>, pubVR |-> <<>>, pubA |-> <<>>, ps |-> NoPs, asc |-> <<>>, ascv |-> 0, vshv |-> 0, step |-> 0]
+HistInit == [pubV |-> <<>>, pubVR |-> <<>>, pubA |-> <<>>, ps |-> NoPs, asc |-> <<>>, ascv |-> 0, vshv |-> 0, step |-> 0,
+             nv |-> 0, na |-> 0]      \* video / audio messages so far (of any kind)
 
 IsCoded(u) == u.t \in {"idr", "slice", "sei"}
 IsPsU(u) == u.t \in {"sps", "pps", "vps"}
@@ -86,8 +90,9 @@ RECURSIVE PsAfter(_, _, _)
 PsAfter(ps, nals, i) == IF i > Len(nals) THEN ps
                         ELSE PsAfter(IF IsPsU(nals[i]) THEN [ps EXCEPT ![nals[i].t] = nals[i].v] ELSE ps, nals, i + 1)
 
-HistStep(h, m, ts) ==
-  LET st == h.step + 1 IN
+HistStep(h0, m, ts) ==
+  LET st == h0.step + 1
+      h == [h0 EXCEPT !.nv = IF m.k \in {"vsh", "v"} THEN @ + 1 ELSE @, !.na = IF m.k \in {"ash", "a"} THEN @ + 1 ELSE @] IN
   CASE m.k = "vsh" -> [h EXCEPT !.step = st, !.vshv = m.ver, !.ps = [sps |-> m.ver, pps |-> m.ver, vps |-> m.ver]]
     [] m.k = "ash" -> [h EXCEPT !.step = st, !.ascv = m.ver, !.asc = m.asc]
     [] m.k = "v" ->
@@ -194,6 +199,18 @@ EndOk(h, c) ==
     /\ IF c.vcur > 0 THEN c.vcur = Len(h.pubV) ELSE \A j \in 1..Len(h.pubV) : h.pubV[j].step <= c.start
     /\ TsAudio => IF c.acur > 0 THEN c.acur = Len(h.pubA) ELSE \A j \in 1..Len(h.pubA) : h.pubA[j].step <= c.start
 
+(* a consumer that is attached before the first message starts no later than the first key frame   *)
+(* (or, for a stream without video, the first audio frame), provided the stream got past lal's     *)
+(* probe stage (both tracks seen or ProbeMax messages) - otherwise "delivered nothing" would pass   *)
+ProbeDone(h) == (h.nv > 0 /\ h.na > 0) \/ h.step >= ProbeMax
+FirstKeyStep(h) == IF \E j \in 1..Len(h.pubV) : h.pubV[j].key
+                   THEN h.pubV[CHOOSE j \in 1..Len(h.pubV) : h.pubV[j].key /\ \A i \in 1..(j-1) : ~h.pubV[i].key].step
+                   ELSE 0
+StartsInTime(h, c) ==
+  ProbeDone(h) =>
+    /\ FirstKeyStep(h) > 0 => c.start > 0 /\ c.start <= FirstKeyStep(h)
+    /\ (h.nv = 0 /\ TsAudio /\ h.pubA # <<>>) => c.start > 0 /\ c.start <= h.pubA[1].step
+
 ---------------------------------------------------------------------------
 (* Acceptor, RTP side (one session: SDP, then the packets of both tracks).                       *)
 RtpInit == [ok |-> TRUE, sdp |-> FALSE, vrate |-> 0, arate |-> 0, vcur |-> 0, acur |-> 0, vseq |-> -1, aseq |-> -1, start |-> 0]
@@ -267,11 +284,17 @@ RtpEndOk(h, r) ==
     /\ IF r.vcur > 0 THEN r.vcur = Len(h.pubVR) ELSE \A j \in 1..Len(h.pubVR) : h.pubVR[j].step <= r.start
     /\ IF r.acur > 0 THEN r.acur = Len(h.pubA) ELSE \A j \in 1..Len(h.pubA) : h.pubA[j].step <= r.start
 
+(* the consumer of the remuxer itself is there from the start: once the session description is out *)
+(* it has everything from the first frame of each described track                                  *)
+RtpStartsInTime(h, r) ==
+  r.sdp =>
+    LET firsts == (IF r.vrate > 0 /\ h.pubVR # <<>> THEN {h.pubVR[1].step} ELSE {}) \cup
+                  (IF r.arate > 0 /\ h.pubA # <<>> THEN {h.pubA[1].step} ELSE {})
+    IN firsts # {} => r.start > 0 /\ \A x \in firsts : r.start <= x
+
 ---------------------------------------------------------------------------
 (* Reference model of lal: Rtmp2MpegtsRemuxer + HTTP-TS fan-out.  Times are integers (ms).        *)
 (* A message carries tm (publication time in ms).                                                 *)
-CONSTANTS ProbeMax,      \* calcFragmentHeaderQueueSize (16)
-          GopNum         \* httpts.gop_num
 Delay == 63000
 RmInit == [done |-> FALSE, q |-> <<>>, vseen |-> FALSE, aseen |-> FALSE, sp |-> NoPs, hasSp |-> FALSE,
            asc |-> <<>>, cache |-> <<>>, cpts |-> 0, opened |-> FALSE, vb |-> -1, ab |-> -1,
